@@ -91,6 +91,13 @@ def run(res, tier, seed):
     coq = []
     for sc in names:
         co = raw[sc]
+        if rng.random() < 0.5:
+            # a run with user-supplied coefficients for this spacecraft earlier in the process must not change the defaults
+            try:
+                Calibrator(sc, custom_coeffs={"channel_1": {"dark_count": 1.0, "gain_switch": co["channel_1"]["gain_switch"] and 500.0,
+                                                            "s0": 0.5, "s1": 0.0, "s2": 0.0}, "channel_2": dict((k, float(v) if v is not None else None) for k, v in co["channel_2"].items())})
+            except Exception as e:  # noqa
+                res.notes["custom_request"] = repr(e)[:200]
         cal = Calibrator(sc)
         ly = int(launch_float(co["date_of_launch"]))
         # rounding of the gains: exact decimal vs numpy on the binary product
